@@ -430,7 +430,7 @@ def look_snapshot(doc, max_cells=600) -> dict:
     return out
 
 
-def geom_snapshot(doc) -> dict:
+def geom_snapshot(doc, sizes=False) -> dict:
     out = {}
     for si, sheet in enumerate(doc.sheets):
         out[("sheet", si)] = sheet.name
@@ -442,6 +442,10 @@ def geom_snapshot(doc) -> dict:
             out[(k, "caption")] = (table.caption, table.caption_enabled, table.table_name_enabled)
             out[(k, "rows")] = tuple(table.row_height(r) for r in range(min(table.num_rows, 300)))
             out[(k, "cols")] = tuple(table.col_width(c) for c in range(min(table.num_cols, 300)))
+            if sizes:
+                out[(k, "size")] = (table.height, table.width)
+                if table.num_rows <= 300 and table.num_cols <= 300:
+                    out[(k, "size_is_sum")] = (table.height == sum(out[(k, "rows")]), table.width == sum(out[(k, "cols")]))
     return out
 
 
